@@ -85,6 +85,29 @@ def main():
         if got[0] == "ok":
             got = ("ok", [ev_b for ev_b in got[1].v]) if isinstance(got[1], SBytes) else got
         n += 1
+    # byte strings: comparison, containment (element and subsequence), prefix test, concatenation, slicing
+    from .core import SByteArray
+    seqs = [b"", b"a", b"ode", b"1Node", b"Node1", b"1No", b"No", b"\0\0\0", b"\0\0\0\0\0", b"1Nod\0", b"de1No"]
+    bops = [lambda a, b: a == b, lambda a, b: a != b, lambda a, b: b in a, lambda a, b: b not in a, lambda a, b: a.startswith(b),
+            lambda a, b: list(a + b), lambda a, b: list(a[1:3]) + list(b[:2]), lambda a, b: (a[0] if len(a) else 0) in b,
+            lambda a, b: len(a) < len(b)]
+    for a, b in itertools.product(seqs, seqs):
+        for k, fn in enumerate(bops):
+            for mk in (SBytes, SByteArray):
+                def sym_fn(*flat, _a=a, _b=b, _fn=fn, _mk=mk):
+                    sa, sb = _mk(list(flat[:len(_a)])), SBytes(list(flat[len(_a):]))
+                    r = _fn(sa, sb)
+                    return [P_int(x) if not isinstance(x, (SInt, int)) else x for x in r] if isinstance(r, list) else r
+                want = real(fn, (a if mk is SBytes else bytearray(a), b))
+                got = run(sym_fn, tuple(a) + tuple(b))
+                if got[0] == "ok" and isinstance(got[1], list):
+                    got = ("ok", [x if isinstance(x, int) else None for x in got[1]])
+                    if None in got[1]:
+                        continue  # symbolic elements are evaluated element-wise by the integer cases above
+                n += 1
+                if got[0] != "limit" and want != got:
+                    bad += 1
+                    print("MISMATCH bytes op", k, a, b, "python", want, "vsym", got)
     n += pstruct.selftest()
     print("vsym selftest: %d operator cases, %d mismatches" % (n, bad))
     return 1 if bad else 0
